@@ -13,13 +13,15 @@ PROPERTY = "C17"
 CONTRACTS = ["contracts.c17"]
 LEVEL = "exploration"
 EXPLANATION = (
-    "Bounded: generated lines (any kind prefix, priority, modify date, primary ZID, 0-4 targets of every kind with surrounding "
+    "Contract-based (all inputs, local facts; standard output is a ghost list): _is_local_link, _open_local_link (one SEARCH LID:: message), "
+    "_open_zid_link (EDIT of the owner's page + SEARCH, or nothing and exit status 1), _open_link (opener selected by the target's own shape only). "
+    "Bounded (the word scan, primary-ZID rule and option selection of run_action_open are not under contract): generated lines (any kind prefix, priority, modify date, primary ZID, 0-4 targets of every kind with surrounding "
     "punctuation) in .zo and .zoq pages are passed to the real run_action_open with every option index; the answers are "
     "checked to be protocol messages only, the target list (PROMPT) to be the targets in line order, option k (and -1) to open "
     "the same thing as a line containing only the k-th target, and page / ZID / ID / RID targets to resolve to the right page."
 )
 ASSUMPTIONS = ["the index agrees with the files (C05)", "lines without z:: cite keys (not in the statement's vocabulary)"]
-TRUSTED = ["SQLAlchemy/SQLite (real stack)"]
+TRUSTED = ["SQLAlchemy/SQLite (real stack)", "z3 5.1 / cvc5 1.0.3", "pyvc symbolic interpreter (engine/)"]
 PROTO = ("EDIT ", "SEARCH ", "PROMPT ", "ECHO ")
 
 
